@@ -222,7 +222,8 @@ def run_case(case):
                     if task.done():
                         break
                     await asyncio.sleep(0)
-            result["first_scan_cancelled"] = not task.done()
+            result["first_scan_cancelled"] = not task.done() or bool(
+                result.get("cancelled_with_assignment_on_the_wire"))
             task.cancel()
             await asyncio.gather(task, return_exceptions=True)
             await asyncio.sleep(0.05)      # what was on the wire lands
